@@ -1,8 +1,10 @@
 SPECIFICATION Spec
 CONSTANT MaxN = 5
-CONSTANT MaxQ = 3
+CONSTANT Extra = {0, 1, 2}
+CONSTANT ZeroTracked = TRUE
+CONSTANT MaxQ = 2
 CONSTANT W0 = 100
-CONSTANT TickW = {80, 132}
+CONSTANT TickW = {80}
 CONSTANT Guarded = TRUE
 VIEW View
 INVARIANT TypeOK
